@@ -308,6 +308,43 @@ fn pool(ctx: &Ctx, tier: &str) -> Vec<PoolVal> {
 fn form_src(form: &str, n: usize) -> Option<String> {
     let names = ["a", "b", "c"];
     let args = names[..n].join(", ");
+    if let Some(pat) = form.strip_prefix("mix:").or_else(|| form.strip_prefix("lmix:")) {
+        // pieces consume the argument names left to right: L<k> plain, S<k> `...[..]`, H `_`, U<k> `..._`
+        let (mut first, mut second, mut i) = (vec![], vec![], 0usize);
+        for piece in pat.split('-') {
+            let k: usize = if piece == "H" { 1 } else { piece[1..].parse().ok()? };
+            if i + k > n {
+                return None;
+            }
+            let taken = names[i..i + k].join(", ");
+            match &piece[..1] {
+                "L" => {
+                    if k > 0 {
+                        first.push(taken)
+                    }
+                }
+                "S" => first.push(format!("...[{}]", taken)),
+                "H" => {
+                    first.push("_".to_string());
+                    second.push(taken)
+                }
+                "U" => {
+                    first.push("..._".to_string());
+                    second.push(format!("[{}]", taken))
+                }
+                _ => return None,
+            }
+            i += k;
+        }
+        if i != n {
+            return None;
+        }
+        return Some(if form.starts_with("lmix:") {
+            format!("[{}]({})", first.join(", "), second.join(", "))
+        } else {
+            format!("f({})({})", first.join(", "), second.join(", "))
+        });
+    }
     Some(match (form, n) {
         ("call", _) => format!("f({})", args),
         ("bang", _) => format!("f ! {}", args),
@@ -349,12 +386,22 @@ fn model_form(form: &str) -> &str {
 }
 fn forms_for(n: usize) -> Vec<&'static str> {
     match n {
-        1 => vec!["call", "bang", "sec0", "secall", "apply", "of", "splatAll", "splatTail", "dot", "dotgt", "then", "fwdDot"],
+        1 => vec![
+            "call", "bang", "sec0", "secall", "apply", "of", "splatAll", "splatTail", "dot", "dotgt", "then", "fwdDot",
+            "mix:H-S0", "mix:S0-H", "mix:U1", "lmix:H-S0", "lmix:U1",
+        ],
         2 => vec![
             "call", "bang", "infix", "backtick", "sec0", "sec1", "secall", "chainR", "chainL", "chainBoth", "apply", "of",
             "juxt", "rsec", "opassign", "splatAll", "splatTail",
+            // `_` / `..._` combined with `...[…]` spreads in every relative order
+            "mix:H-S1", "mix:S1-H", "mix:L1-H-S0", "mix:H-S0-L1", "mix:S0-H-L1", "mix:U1-L1", "mix:L1-U1", "mix:U2",
+            "mix:H-U1", "mix:S0-H-H", "lmix:H-S1", "lmix:S1-H", "lmix:U1-L1", "lmix:H-S0-L1",
         ],
-        _ => vec!["call", "bang", "sec0", "sec1", "sec2", "secall", "apply", "of", "splatAll", "splatTail"],
+        _ => vec![
+            "call", "bang", "sec0", "sec1", "sec2", "secall", "apply", "of", "splatAll", "splatTail",
+            "mix:H-S2", "mix:L1-H-S1", "mix:H-S1-H", "mix:S1-H-L1", "mix:S2-H", "mix:U2-L1", "mix:L1-U2", "mix:H-S0-L2",
+            "mix:U1-S1-H", "lmix:H-S2", "lmix:L1-H-S1", "lmix:H-S1-H", "lmix:U2-L1",
+        ],
     }
 }
 
@@ -1205,6 +1252,9 @@ fn run_tuple(
             Some(s) => s,
             None => continue,
         };
+        if form.starts_with("lmix:") && c.label != "spy" {
+            continue;
+        }
         SPYLOG.with(|l| l.borrow_mut().clear());
         let out = ctx.eval_with(&binds, &src);
         let rust = if unordered { sort_top(&class(&out)) } else { class(&out) };
@@ -1240,6 +1290,7 @@ fn run_tuple(
         // Spec: the reference the property attaches to this form
         let spec = match spec_raw.as_str() {
             "ref:always" => reference.clone(),
+            "ref:listLit" => class(&ctx.eval_with(&binds, &format!("[{}]", names[..n].join(", ")))),
             "ref:ifNotFunc" => {
                 if args[0].kind == "func" {
                     rust.clone()
